@@ -412,6 +412,10 @@ func (r *Run) keyListOf(fn *Func, x ast.Expr, depth int) (string, bool) {
 		}
 		return m, nApp == 1
 	case *ast.CallExpr:
+		// slices.Collect(maps.Keys(m)) / slices.Sorted(maps.Keys(m)) / slices.AppendSeq(empty, maps.Keys(m))
+		if kind, m := seqOverMap(fn.Info(), v); kind == "keys" {
+			return r.P.canon(fn, m, 0), true
+		}
 		f, _ := calleeObj(fn.Info(), v).(*types.Func)
 		def := r.P.Funcs[f]
 		if f == nil || def == nil || !r.P.isGlue(f) {
